@@ -131,6 +131,9 @@ func (a Complex) M__imul__(other Object) (Object, error) {
 
 func (a Complex) M__truediv__(other Object) (Object, error) {
 	if b, ok := convertToComplex(other); ok {
+		if b == 0 {
+			return nil, ExceptionNewf(ZeroDivisionError, "complex division by zero")
+		}
 		return Complex(a / b), nil
 	}
 	return NotImplemented, nil
@@ -138,6 +141,9 @@ func (a Complex) M__truediv__(other Object) (Object, error) {
 
 func (a Complex) M__rtruediv__(other Object) (Object, error) {
 	if b, ok := convertToComplex(other); ok {
+		if a == 0 {
+			return nil, ExceptionNewf(ZeroDivisionError, "complex division by zero")
+		}
 		return Complex(b / a), nil
 	}
 	return NotImplemented, nil
